@@ -412,7 +412,7 @@ fn observe_module(m: &FrozenModule) -> String {
         .join(";")
 }
 
-const SRC_A: &str = "A = ['a' * 5, [1, 2, ('t', 3)], {'k': 'v' * 3}]\nSA = ['alpha'] + [x * 3 for x in ['be', 'gamma', 'de']]\ndef fa(x):\n    return [x, A[0], len(SA)]\n";
+const SRC_A: &str = "def fe(n):\n    l = []\n    for x in l:\n        pass\n    l.append(n)\n    return l\nA = ['a' * 5, [1, 2, ('t', 3)], {'k': 'v' * 3}]\nSA = ['alpha'] + [x * 3 for x in ['be', 'gamma', 'de']]\ndef fa(x):\n    return [x, A[0], len(SA)]\n";
 const SRC_B: &str = "B = ['b' * 7, {'x': [9, 8]}, (1, 2)]\nSB = ['one', 'two', 'three' * 2]\ndef fb(x):\n    return [x, B[1]]\n";
 
 /// Two frozen heaps built back to back on one (temporary) thread, so that the second reuses the chunk remainder the
@@ -769,6 +769,10 @@ fn l1_op(op: &str, shared: &FrozenModule, slot: &Mutex<Option<FrozenModule>>) ->
             }
             None => "P=L#0[s\"pppppp\",L#1[i1,i2]]".to_owned(),
         },
+        // empty mutable lists (all backed by one statically allocated empty array) iterated and then mutated, inside a frozen
+        // function of the shared module and in fresh code
+        "empty_iter" => eval_transcript("load('a.star', 'fe')\ndef g(n):\n    l = []\n    for x in l:\n        pass\n    r = [y for y in l] + sorted(l)\n    l.append(n)\n    r.append(n)\n    return [l, r]\nemit([fe(i) for i in range(40)])\nemit([g(i) for i in range(40)])\n", &[("a.star", shared)]),
+        "iter_shared" => eval_transcript("load('a.star', 'A', 'SA')\nemit([x for x in A])\nemit(sorted(SA, reverse = True))\nemit({k: v for k, v in A[2].items()})\nemit([len(s) for s in SA] + [i for i, _ in enumerate(A[1])])\n", &[("a.star", shared)]),
         "record_enum" => eval_transcript("R = record(a = int)\nE = enum('x', 'y')\nemit([R(a = 1), E('y'), isinstance(R(a = 2), R)])\n", &[]),
         "type_compiled" => eval_transcript("load('a.star', 'A')\nemit([isinstance(A, list[typing.Any]), isinstance(A[1], list[int | tuple])])\n", &[("a.star", shared)]),
         x => panic!("unknown op {x}"),
@@ -818,6 +822,53 @@ fn l1(spec: &J) -> J {
     json!({"id": spec["id"], "results": results})
 }
 
+/// Supplementary, NOT exhaustive: the operation alphabet under true parallelism (free-running OS threads). Effects of plain-memory
+/// data races cannot be interleaved by the controlled scheduler (it only switches at intercepted operations); this pass gives
+/// them a chance to show as a wrong result or a crash. Sampled: it can only add (true) alarms, never decides the property.
+fn free(spec: &J) -> J {
+    let shared = eval_frozen("a.star", SRC_A, &[]);
+    let ops: Vec<String> = spec["ops"].as_array().unwrap().iter().map(|o| o.as_str().unwrap().to_owned()).collect();
+    let threads = spec["threads"].as_u64().unwrap_or(8) as usize;
+    let rounds = spec["rounds"].as_u64().unwrap_or(50) as usize;
+    let slot = Arc::new(Mutex::new(None));
+    // solo results, one thread
+    let solo: Vec<String> = ops.iter().map(|op| l1_op(op, &shared, &slot)).collect();
+    *slot.lock().unwrap() = None;
+    let solo = Arc::new(solo);
+    let ops = Arc::new(ops);
+    let barrier = Arc::new(std::sync::Barrier::new(threads));
+    let mut hs = vec![];
+    for t in 0..threads {
+        let (shared, slot, solo, ops, barrier) = (shared.dupe(), slot.dupe(), solo.dupe(), ops.dupe(), barrier.dupe());
+        hs.push(std::thread::Builder::new().stack_size(8 << 20).spawn(move || -> Option<J> {
+            barrier.wait();
+            let mut n = 0usize;
+            for r in 0..rounds {
+                for k in 0..ops.len() {
+                    let i = (k + t + r) % ops.len();
+                    let got = std::panic::catch_unwind(std::panic::AssertUnwindSafe(|| l1_op(&ops[i], &shared, &slot)))
+                        .unwrap_or_else(|_| format!("PANIC: {}", crate::take_panic()));
+                    n += 1;
+                    if got != solo[i] {
+                        return Some(json!({"thread": t, "round": r, "op": ops[i], "solo": solo[i], "got": got, "operations_before": n}));
+                    }
+                }
+            }
+            None
+        }).unwrap());
+    }
+    drop(shared);
+    let mut bad = vec![];
+    for h in hs {
+        match h.join() {
+            Ok(Some(b)) => bad.push(b),
+            Ok(None) => {}
+            Err(_) => bad.push(json!({"join": "panic"})),
+        }
+    }
+    json!({"id": spec["id"], "free": true, "threads": threads, "rounds": rounds, "operations": threads * rounds * ops.len(), "mismatches": bad})
+}
+
 pub fn cmd() {
     crate::install_panic_hook();
     use std::io::BufRead;
@@ -831,7 +882,13 @@ pub fn cmd() {
             continue;
         }
         let spec: J = serde_json::from_str(&line).unwrap();
-        let o = if spec["layer"] == "l1" { l1(&spec) } else { l2(&spec) };
+        let o = if spec["layer"] == "l1" {
+            l1(&spec)
+        } else if spec["layer"] == "free" {
+            free(&spec)
+        } else {
+            l2(&spec)
+        };
         writeln!(out, "{}", o).unwrap();
         out.flush().unwrap();
     }
